@@ -22,13 +22,12 @@ S(c, name) == IF c THEN {name} ELSE {}
 
 (* ---- "compute" ---- *)
 SidTerm == [exhash |-> 0]            \* some session id (the harness picks one unrelated to H)
-Expected == ComputeKeyH(1, SidTerm, R.letter, R.n, R.hl)
 Junk == [junk |-> 0]
 TermOf(tok) == CASE tok.t = "K"   -> Secret(1)
                  [] tok.t = "H"   -> ExHash(1)
                  [] tok.t = "X"   -> Letter(tok.v)
                  [] tok.t = "sid" -> SidTerm
-                 [] tok.t = "D"   -> IF tok.i \in 1..Len(Expected.blocks) THEN Expected.blocks[tok.i] ELSE Junk
+                 [] tok.t = "D"   -> Dg(1, SidTerm, R.letter, tok.i)
                  [] OTHER         -> Junk
 CallTerms(i) == [j \in 1..Len(R.calls[i]) |-> TermOf(R.calls[i][j])]
 Want == HashInputs(1, SidTerm, R.letter, R.n, R.hl)
